@@ -13,6 +13,7 @@ from typing import Any
 
 from verif import core, fleet
 from verif import storage_k as K
+from verif.props import c01_inmem
 
 RULE = (
     "seeded histories of BaseStorage calls (<=3 studies sharing the id space, <=8 trials, ~4% unknown ids, 15% "
@@ -179,11 +180,12 @@ def correspond(chk: core.Check, n_hist: int, n_ops: tuple[int, int], cfgs: list[
 def main(chk: core.Check) -> int:
     chk.rule = RULE
     if not getattr(chk, "no_prove", False):
-        chk.prove()
+        chk.prove(["OptunaVerif.Props.C01", "OptunaVerif.Props.C01InMem"])
     quick = chk.tier == "quick"
     try:
         correspond(chk, n_hist=100 if quick else 500, n_ops=(5, 60) if quick else (5, 200),
                    cfgs=fleet.QUICK if quick else fleet.THOROUGH, dump_p=0.35 if quick else 0.4)
+        c01_inmem.correspond(chk, chk.tier)
     except core.DriverBroken as e:
         chk.broke("correspondence", {"driver": str(e)[:800]})
     chk.assumptions += [
@@ -191,7 +193,7 @@ def main(chk: core.Check) -> int:
         "attribute payloads are compared after one JSON round trip; datetimes as present/absent",
         "U1-U5 of DESIGN.md section 2 are accepted either way",
     ]
-    return chk.finish(search=None)
+    return chk.finish(search=c01_inmem.search)
 
 
 def replay(chk: core.Check, path: str) -> int:
